@@ -33,7 +33,7 @@ ASSUMPTIONS = [
     "entries that carry ids but no status are outside the stated quantifier: generated only as a non-deciding probe",
     "a reply that omits the entry of a rejected characteristic cannot be reported faithfully by any controller; garbling never removes entries of rejected ids",
 ]
-TIERS = {"quick": {"runs": 4000, "wall": 55}, "thorough": {"runs": 300000, "wall": 1500}}
+TIERS = {"quick": {"runs": 30000, "wall": 55}, "thorough": {"runs": 300000, "wall": 1500}}
 
 CODES = [-70401, -70402, -70403, -70404, -70405, -70406, -70407, -70408, -70409, -70410, -70411, -70412]
 
